@@ -25,6 +25,8 @@ FAMILY = {
  'fw5':   ('R:Apex(A, C:B(B1,B2), W2, W3, W4)',                        'width-5 resumable root whose second sub-state is a region: the LHalf/RHalf dispatch split has a left half with a non-first member'),
  'foo':   ('C:Apex(A, O:Or(O:Oi(X, Y), Q))',                            'orthogonal region nested directly inside an orthogonal region'),
  'fnn':   ('C:Apex(A, N:R(O:Oq(N:Na(A1,A2), N:Nb(B1,B2)), X))',       'random region holding an orthogonal region of two random regions'),
+ 'fpn':   ('C:Apex(C:P(C:G(G1,G2)), A)',                               'plan fixture: plan-owning region nested in a composite region'),
+ 'fpo':   ('O:Apex(L, C:G(G1,G2))',                                    'plan fixture: plan-owning region below an orthogonal region, after a plain sibling'),
  'fnu':   ('C:Apex(A, U:U(U1, C:V(V1,V2)), S:Sx(S1,S2))',             'utilitarian region with a nested region, selectable sibling'),
 }
 QUICK = ['f5', 'f10', 'fsel', 'foroot']
@@ -78,6 +80,13 @@ def fsm_case(pid, fx, name, defs, timeout=600, solvers=('kissat',), checks='none
              solvers=solvers, timeout=timeout, meta=m, witness=witness, tv=tv, mem_gb=mem_gb)
     c.cover = cover
     return c
+
+def mark_cover(L, patterns):
+    """cases (glob patterns on the case name) that additionally run their COVER() goals under cbmc --cover cover"""
+    import fnmatch
+    for c in L:
+        if any(fnmatch.fnmatch(c.name, p) for p in patterns): c.cover = True
+    return L
 
 def tv_case(pid, fx):
     """translation validation of an FSM fixture: seeded random walk from the constructed instance, native only"""
